@@ -195,8 +195,13 @@ PH_RE = re.compile(r"ZQ~(\d+)~QZ")
 EOLS = ["\n", "", "\r\n", "  ", "\t"]
 
 
+def long_text():
+    """texts of 64-400 characters (length-triggered paths such as caches or fast paths)"""
+    return st.builds(lambda s, k: (s or "<&>") * k, gen.any_text(), st.integers(8, 40)).map(lambda s: s[:400] if len(s) >= 64 else (s * 64)[:80])
+
+
 def slot_values():
-    return st.one_of(gen.any_text(), gen.any_text(), gen.numbers())
+    return st.one_of(gen.any_text(), gen.any_text(), gen.numbers(), long_text())
 
 
 def tree_strategy():
@@ -234,6 +239,7 @@ def case_strategy():
             "roots": st.lists(st.one_of(tree_strategy(), st.builds(lambda v: {"k": "slot", "v": v}, slot_values())), min_size=1, max_size=3),
             "indent": st.integers(0, 3),
             "eol": st.sampled_from(EOLS),
+            "prior": st.booleans(),
         }
     )
 
@@ -351,6 +357,17 @@ def body_slots(case, note):
     objs0 = [b0.node(r) for r in case["roots"]]
     b1 = _Builder(True)
     objs1 = [b1.node(r) for r in case["roots"]]
+    if case.get("prior"):
+        # history: the very same characters were rendered earlier in this process as *trusted* markup and as an
+        # attribute value; a plain child must be escaped all the same
+        import htmltools as h
+
+        for v in b1.slots:
+            if isinstance(v, str):
+                h.Tag("div", h.HTML(v), "x", title=v).get_html_string()
+                h.TagList(h.HTML(v)).get_html_string()
+                h.Tag("p", h.HTML(v)).get_html_string()
+                h.Tag("script", v).get_html_string()
     outs0 = _render(objs0, case, b0.has_tfy)
     outs1 = _render(objs1, case, b1.has_tfy)
     slots = b0.slots
@@ -381,6 +398,10 @@ def body_slots(case, note):
     classes = ["how:" + x for x in sorted(b0.hows)]
     if any(not isinstance(v, str) for v in slots):
         classes.append("number")
+    if any(isinstance(v, str) and len(v) >= 64 for v in slots):
+        classes.append("long-text")
+    if case.get("prior"):
+        classes.append("prior-trusted-render")
     note(bool(meta_slots) and not only_child, *classes)
 
 
@@ -408,7 +429,7 @@ CLAUSES = [
         quick=1200,
         thorough=20000,
         shards_quick=4,
-        required=("how:append", "how:extend", "how:insert", "how:list", "how:tfy", "how:ctor", "number"),
+        required=("how:append", "how:extend", "how:insert", "how:list", "how:tfy", "how:ctor", "number", "long-text", "prior-trusted-render"),
         rule="metachar slot not an only child",
         fuzz=60000,
     ),
